@@ -2,7 +2,8 @@
 """Regenerates MANIFEST.json from harness/props.json (claims, notes) so that it is always consistent."""
 import json, os
 here = os.path.dirname(os.path.dirname(os.path.abspath(__file__)))
-props = json.load(open(os.path.join(here, 'harness/props.json')))
+import glob
+props = {os.path.basename(f)[:-5]: json.load(open(f)) for f in glob.glob(os.path.join(here, 'harness/props.d/*.json'))}
 allp = [json.loads(l)['id'] for l in open(os.path.join(here, 'properties.jsonl'))]
 na_reasons = json.load(open(os.path.join(here, 'harness/not_applicable.json')))
 TECH = "bounded symbolic execution of the real Go code (lowered to go/ssa) with every assertion decided per path by an SMT solver (cvc5); counterexamples replayed against the native build"
